@@ -54,45 +54,45 @@ CHECKS = {
     technique="TLA+ property monitor (SenderProps.tla) evaluated by TLC on traces recorded from the real Sender driven by TLC-generated behaviours (Gen_Sender.tla)"),
  "C01": dict(
     category="model_checking",
-    text="Configuration grid enumerated by TLC (object shape x 5 FEC schemes x parity x cenc x in-band/FDT-only FTI and CENC x publish mode x interleave x multiplex, three concurrent objects over two priority queues, transfer counts 1-2, receive-once on/off, MD5 on/off): every packet of the real session pushed in order into a real MultiReceiver; the monitor requires for every object the sender accepted exactly one (receive-once) / one per transfer exact complete writer, no failure, no writer for anything else, and metadata (location, type, lengths, MD5, groups, ETag, cache directive, cenc, OTI) equal to what the sender was given. The sender-side monitor additionally checks that the in-band FTI carries exactly the object's transfer length.",
+    text="Configuration grid enumerated by TLC (object shape x 5 FEC schemes x parity x cenc x in-band/FDT-only FTI and CENC x publish mode x interleave x multiplex, three concurrent objects over two priority queues, transfer counts 1-2, receive-once on/off, MD5 on/off): every packet of the real session pushed in order into a real MultiReceiver; the monitor requires for every object the sender accepted exactly one (receive-once) / one per transfer exact complete writer, no failure, no writer for anything else, and metadata (location, type, lengths, MD5, groups, ETag, cache directive, cenc, OTI) equal to what the sender was given. Sessions whose object has 2049 - 6200 source blocks (more than the receiver pre-allocates) are included. The sender-side monitor additionally checks that the in-band FTI carries exactly the object's parameters and that whatever add_object accepts is transmittable: transfer lengths around 2^32 / 2^40 / 2^48 against the width of EXT_FTI, block sizes around the limits of the codecs (Raptor 8192, RaptorQ 56403, RS(2^8) 256 symbols), no panic / hang of the sender.",
     design_ref="DESIGN.md 4.4, 4.6, 5.3, 7 (C01)",
     note="Trusts TLC, the harness's scripted ObjectWriter/Builder and digests, expat for the FDT XML of the recorded sessions, Partition.tla for the block structure. The decode rule is the one stated by the property (RS: any k distinct symbols; others: all k source symbols), not flute's. Quick tier samples (seeded) the TLC-enumerated schedules; thorough tier replays far more or all of them.",
-    technique="TLA+ property monitor (ReceiverProps.tla) evaluated by TLC on traces recorded from the real MultiReceiver fed TLC-enumerated fault schedules (Gen_Recv.tla) over sessions recorded from the real Sender"),
+    technique="TLA+ property monitor (ReceiverProps.tla) evaluated by TLC on traces recorded from the real MultiReceiver fed TLC-enumerated fault schedules (Gen_Recv.tla) over sessions recorded from the real Sender; the mechanism specification Receiver.tla is model-checked composed with the monitor for every push sequence within bounds (MC_Receiver.tla, with broken variants as vacuity guard) and bound to the code by trace validation (Trace_Receiver.tla: callbacks and container snapshot of every call)"),
 
  "C02": dict(
     category="model_checking",
     text='Every subset (loss) of every recorded session of <= 13 packets, every multiset with multiplicity <= 2 of sessions of <= 8 packets, subsets of carousel sessions of <= 16 packets (order preserved) are enumerated by TLC over the real packet lists; the monitor computes Recoverable(o) in TLA+ from the delivered (SBN, ESI) sets and requires an exact complete delivery whenever it holds.',
     design_ref="DESIGN.md 4.4, 4.6, 5.3, 7 (C02)",
     note="Trusts TLC, the harness's scripted ObjectWriter/Builder and digests, expat for the FDT XML of the recorded sessions, Partition.tla for the block structure. The decode rule is the one stated by the property (RS: any k distinct symbols; others: all k source symbols), not flute's. Quick tier samples (seeded) the TLC-enumerated schedules; thorough tier replays far more or all of them.",
-    technique="TLA+ property monitor (ReceiverProps.tla) evaluated by TLC on traces recorded from the real MultiReceiver fed TLC-enumerated fault schedules (Gen_Recv.tla) over sessions recorded from the real Sender"),
+    technique="TLA+ property monitor (ReceiverProps.tla) evaluated by TLC on traces recorded from the real MultiReceiver fed TLC-enumerated fault schedules (Gen_Recv.tla) over sessions recorded from the real Sender; the mechanism specification Receiver.tla is model-checked composed with the monitor for every push sequence within bounds (MC_Receiver.tla, with broken variants as vacuity guard) and bound to the code by trace validation (Trace_Receiver.tla: callbacks and container snapshot of every call)"),
 
  "C03": dict(
     category="model_checking",
     text="All permutations x subsets of recorded sessions of <= 6 packets, duplicates, mixtures of two transfers, and every object packet of small sessions with payload first/middle/last byte flipped, truncated by 1-3 bytes or extended, with MD5 checking on and off: complete is only ever reported with the sender's exact bytes (always for unaltered packets; with altered packets whenever MD5 is announced and checked), never complete and failed on one writer.",
     design_ref="DESIGN.md 4.4, 4.6, 5.3, 7 (C03)",
     note="Trusts TLC, the harness's scripted ObjectWriter/Builder and digests, expat for the FDT XML of the recorded sessions, Partition.tla for the block structure. The decode rule is the one stated by the property (RS: any k distinct symbols; others: all k source symbols), not flute's. Quick tier samples (seeded) the TLC-enumerated schedules; thorough tier replays far more or all of them.",
-    technique="TLA+ property monitor (ReceiverProps.tla) evaluated by TLC on traces recorded from the real MultiReceiver fed TLC-enumerated fault schedules (Gen_Recv.tla) over sessions recorded from the real Sender"),
+    technique="TLA+ property monitor (ReceiverProps.tla) evaluated by TLC on traces recorded from the real MultiReceiver fed TLC-enumerated fault schedules (Gen_Recv.tla) over sessions recorded from the real Sender; the mechanism specification Receiver.tla is model-checked composed with the monitor for every push sequence within bounds (MC_Receiver.tla, with broken variants as vacuity guard) and bound to the code by trace validation (Trace_Receiver.tla: callbacks and container snapshot of every call)"),
 
  "C09": dict(
     category="model_checking",
     text='Writer scripts enumerated by TLC (builder answering store / already-received / abort, open failing, write failing at call 1..3, packets in order up to any index or object-before-FDT, receiver dropped at any point) plus the lossy, corrupted and late-join histories: one typestate automaton per writer id (open first and once, writes only between a successful open and the terminal, writes form a prefix of the object, at most one terminal, nothing after it, complete only with exactly the announced content, every opened writer terminated by the time of drop).',
     design_ref="DESIGN.md 4.4, 4.6, 5.3, 7 (C09)",
     note="Trusts TLC, the harness's scripted ObjectWriter/Builder and digests, expat for the FDT XML of the recorded sessions, Partition.tla for the block structure. The decode rule is the one stated by the property (RS: any k distinct symbols; others: all k source symbols), not flute's. Quick tier samples (seeded) the TLC-enumerated schedules; thorough tier replays far more or all of them.",
-    technique="TLA+ property monitor (ReceiverProps.tla) evaluated by TLC on traces recorded from the real MultiReceiver fed TLC-enumerated fault schedules (Gen_Recv.tla) over sessions recorded from the real Sender"),
+    technique="TLA+ property monitor (ReceiverProps.tla) evaluated by TLC on traces recorded from the real MultiReceiver fed TLC-enumerated fault schedules (Gen_Recv.tla) over sessions recorded from the real Sender; the mechanism specification Receiver.tla is model-checked composed with the monitor for every push sequence within bounds (MC_Receiver.tla, with broken variants as vacuity guard) and bound to the code by trace validation (Trace_Receiver.tla: callbacks and container snapshot of every call)"),
 
  "C16": dict(
     category="model_checking",
     text='Every join offset inside the first carousel cycle of recorded carousel sessions (5 schemes, in-band / FDT-only OTI and CENC, 1-2 objects, delay / interval carousel, both FDT modes): the receiver is fed the suffix up to the end of the second full cycle after the join and must have delivered every carouselled object exactly.',
     design_ref="DESIGN.md 4.4, 4.6, 5.3, 7 (C16)",
     note="Trusts TLC, the harness's scripted ObjectWriter/Builder and digests, expat for the FDT XML of the recorded sessions, Partition.tla for the block structure. The decode rule is the one stated by the property (RS: any k distinct symbols; others: all k source symbols), not flute's. Quick tier samples (seeded) the TLC-enumerated schedules; thorough tier replays far more or all of them.",
-    technique="TLA+ property monitor (ReceiverProps.tla) evaluated by TLC on traces recorded from the real MultiReceiver fed TLC-enumerated fault schedules (Gen_Recv.tla) over sessions recorded from the real Sender"),
+    technique="TLA+ property monitor (ReceiverProps.tla) evaluated by TLC on traces recorded from the real MultiReceiver fed TLC-enumerated fault schedules (Gen_Recv.tla) over sessions recorded from the real Sender; the mechanism specification Receiver.tla is model-checked composed with the monitor for every push sequence within bounds (MC_Receiver.tla, with broken variants as vacuity guard) and bound to the code by trace validation (Trace_Receiver.tla: callbacks and container snapshot of every call)"),
 
  "C19": dict(
     category="model_checking",
     text='Receiver clock skews from -30 years to +30 years x transit-delay classes around the FDT duration (0, D-3, D+3, 2D; the +-2 s band excluded) x D in {10 s, 30 s, 1 h} x SCT present/absent x expiry check on/off x object before/after FDT x cleanup in between, all combinations: delivery starts only through an instance unexpired on the estimated sender clock, the outcome equals the one computed on the sender clock, nothing is counted as failed for an expired announcement.',
     design_ref="DESIGN.md 4.4, 4.6, 5.3, 7 (C19)",
     note="Trusts TLC, the harness's scripted ObjectWriter/Builder and digests, expat for the FDT XML of the recorded sessions, Partition.tla for the block structure. The decode rule is the one stated by the property (RS: any k distinct symbols; others: all k source symbols), not flute's. Quick tier samples (seeded) the TLC-enumerated schedules; thorough tier replays far more or all of them.",
-    technique="TLA+ property monitor (ReceiverProps.tla) evaluated by TLC on traces recorded from the real MultiReceiver fed TLC-enumerated fault schedules (Gen_Recv.tla) over sessions recorded from the real Sender"),
+    technique="TLA+ property monitor (ReceiverProps.tla) evaluated by TLC on traces recorded from the real MultiReceiver fed TLC-enumerated fault schedules (Gen_Recv.tla) over sessions recorded from the real Sender; the mechanism specification Receiver.tla is model-checked composed with the monitor for every push sequence within bounds (MC_Receiver.tla, with broken variants as vacuity guard) and bound to the code by trace validation (Trace_Receiver.tla: callbacks and container snapshot of every call)"),
  "C15": dict(
     category="model_checking",
     text="ToiAlloc.tla (mechanism: next / reserved / handles / objects, allocate with skip of 0 and of reserved values, release) is model-checked for C15_Inv (next allocation free and non-zero, held values pairwise distinct and exactly the reserved set) from initial values {0, 1, M-2, M-1}; every operation history up to the depth bound that TLC prints is replayed on the real Sender for every TOI width with the initial value next to the wrap point, handle drops partly on another thread, plus the random default initial value and a full cycle of the 16-bit space with the maximum TOI live; Mon_Toi.tla judges every allocation (non-zero, within width, not reserved / attached to a live object, equal to the TOI of the object's packets) and SenderProps.tla the packets and FDT entries.",
@@ -107,7 +107,7 @@ CHECKS = {
     technique="TLC-enumerated read schedules replayed on the real Sender; TLA+ monitor comparing packet sequences"),
  "C04": dict(
     category="fault_enumeration",
-    text="TLC enumerates (valid prefix length) x (adversarial operation) over real sessions of every scheme and signalling mode: every single-byte substitution in the header region of every packet, 30 crafted FDT instances (missing / zero / huge / non-numeric / inconsistent attributes, malformed XML) each followed by object packets, seeded mutation sequences (bit flips, header-field edits, truncation, extension, splicing), every byte string of length <= 2 (thorough <= 3) and seeded longer ones.  All cases are pushed into one real MultiReceiver (aggregated events: count, ok, err, panic, slowest call, peak heap per call; offenders itemised), a watchdog catches hangs, and afterwards a valid session with fresh TOIs on the same endpoint and TSI must be delivered exactly.  The TLA+ monitor (ReceiverProps.tla) judges every event: result in {ok, err}, bounded time and heap, writer protocol still respected, valid suffix delivered.",
+    text="TLC enumerates (valid prefix length) x (adversarial operation) over real sessions of every scheme and signalling mode: every single-byte substitution in the header region of every packet, 30 crafted FDT instances (missing / zero / huge / non-numeric / inconsistent attributes, malformed XML) each followed by object packets, seeded mutation sequences (bit flips, header-field edits, truncation, extension, splicing), every byte string of length <= 2 (thorough <= 3) and seeded longer ones.  All cases are pushed into one real MultiReceiver (aggregated events: count, ok, err, panic, slowest call, peak heap per call; offenders itemised), a watchdog catches hangs, and afterwards a valid session with fresh TOIs on the same endpoint and TSI must be delivered exactly.  The TLA+ monitor (ReceiverProps.tla) judges every event: result in {ok, err}, bounded time and heap, writer protocol still respected, valid suffix delivered. Plus 27 783 well-formed packets built by the encoder of Wire.tla whose EXT_FTI values sit on the limits of the field widths and of the FEC schemes (scheme x B x E x transfer-length class x scheme-specific values x (SBN, ESI) on and beyond the block).",
     design_ref="DESIGN.md 7 (C04), 8",
     note="Raw bytes are below the abstraction of the specification: the spec supplies the receiver states (prefixes), the classes of adversarial operations and the oracle; which concrete bytes misbehave is found by enumeration in the harness.  Heap measured by a counting allocator; time limits 1 s per datagram and a 3 s watchdog.",
     technique="TLC-enumerated fault schedules + harness-side mass enumeration below the abstraction; TLA+ monitor on recorded traces"),
